@@ -264,9 +264,47 @@ def add_fact(w: World, dtype: str, wire: Optional[str]) -> None:
         w.facts[(dtype, wire)] = "!"
 
 
-def mk_service_class(w: World, idx: int, svc: Dict[str, Any]):
-    from async_upnp_client.const import ServiceInfo
+def _mk_handler(w: World, a: Dict[str, Any], vtypes: Dict[str, str]):
+    """the scripted, decorated handler method of one action"""
     from async_upnp_client.exceptions import UpnpActionError
+    from async_upnp_client.server import callable_action
+
+    async def handler(self, _w=w, _a=a, **kwargs):
+        _w.seen = dict(kwargs)
+        sc = _w.script
+        if "err" in sc:
+            # `desc` absent / None: UpnpActionError(error_code=c) without a description
+            raise UpnpActionError(error_code=sc["err"], error_desc=sc.get("desc"))
+        res = dict(sc.get("ret", {}))
+        # the library's own idiom (contrib/dummy_router.py): assign the related state variable and return
+        # the UpnpStateVariable object itself
+        omap = dict(map(tuple, _a["out"]))
+        for k in sc.get("retvar", []):
+            if k in res and k in omap:
+                sv = self.state_variable(omap[k])
+                sv.value = res[k]
+                res[k] = sv
+        return res
+    handler.__annotations__ = {arg: py_type(vtypes[var]) for arg, var in a["in"] if var in vtypes}
+    return callable_action(a["name"], dict(map(tuple, a["in"])), dict(map(tuple, a["out"])))(handler)
+
+
+SHARED_ACTION = {"name": "SharedPing", "in": [], "out": []}
+SHARED_ATTR = "act_zzz_shared"   # sorts after act_NNN: the shared action is the last one of a service's definition
+
+
+def mk_shared_base(w: World):
+    """a base class two services of one definition inherit an action from"""
+    from async_upnp_client.server import UpnpServerService
+    return type("GenSharedBase", (UpnpServerService,), {SHARED_ATTR: _mk_handler(w, SHARED_ACTION, {})})
+
+
+def mk_service_class(w: World, idx: int, svc: Dict[str, Any], shared_base=None):
+    """the service class of a definition, built with `type(...)` — optionally through a small hierarchy
+    (`svc["layout"]`): actions split between a base class, a plain mixin and the concrete class body, an inherited
+    action overridden in the subclass, the state-variable table inherited from the base, a base shared with another
+    service.  What the definition (`svc["acts"]`, `svc["vars"]`) lists is the UNION Python's MRO gives."""
+    from async_upnp_client.const import ServiceInfo
     from async_upnp_client.server import UpnpServerService, callable_action, create_event_var, create_state_var
 
     sdefs = {}
@@ -279,31 +317,38 @@ def mk_service_class(w: World, idx: int, svc: Dict[str, Any]):
         mk = create_event_var if v.get("ev") else create_state_var
         sdefs[v["name"]] = mk(v["dtype"], allowed=v.get("allowed"), allowed_range=rng or None, default=v.get("default"))
     vtypes = {v["name"]: v["dtype"] for v in svc["vars"]}
+    layout = svc.get("layout") or {}
+    on_base, on_mixin, override = set(layout.get("base", [])), set(layout.get("mixin", [])), set(layout.get("override", []))
+    base_ns: Dict[str, Any] = {}
+    mixin_ns: Dict[str, Any] = {}
     ns: Dict[str, Any] = {
         "SERVICE_DEFINITION": ServiceInfo(service_id=svc["id"], service_type=svc["type"], control_url=svc["ctl"],
                                           event_sub_url=svc["evt"], scpd_url=svc["scpd"], xml=ET.Element("server_service")),
-        "STATE_VARIABLE_DEFINITIONS": sdefs,
     }
+    (base_ns if layout.get("vars_on_base") else ns)["STATE_VARIABLE_DEFINITIONS"] = sdefs
     for k, a in enumerate(svc["acts"]):
-        async def handler(self, _w=w, _a=a, **kwargs):
-            _w.seen = dict(kwargs)
-            sc = _w.script
-            if "err" in sc:
-                # `desc` absent / None: UpnpActionError(error_code=c) without a description
-                raise UpnpActionError(error_code=sc["err"], error_desc=sc.get("desc"))
-            res = dict(sc.get("ret", {}))
-            # the library's own idiom (contrib/dummy_router.py): assign the related state variable and return
-            # the UpnpStateVariable object itself
-            omap = dict(map(tuple, _a["out"]))
-            for k in sc.get("retvar", []):
-                if k in res and k in omap:
-                    sv = self.state_variable(omap[k])
-                    sv.value = res[k]
-                    res[k] = sv
-            return res
-        handler.__annotations__ = {arg: py_type(vtypes[var]) for arg, var in a["in"] if var in vtypes}
-        ns[f"act_{k:03d}"] = callable_action(a["name"], dict(map(tuple, a["in"])), dict(map(tuple, a["out"])))(handler)
-    return type(f"GenService{idx}", (UpnpServerService,), ns)
+        if layout.get("shared") and shared_base is not None and a == SHARED_ACTION:
+            continue   # inherited from the shared base
+        attr = f"act_{k:03d}"
+        method = _mk_handler(w, a, vtypes)
+        if k in override:
+            # the base defines another action under this attribute; the subclass overrides it with the real one
+            async def decoy(self, **kwargs):
+                raise RuntimeError("overridden action was called")
+            base_ns[attr] = callable_action(f"Overridden{k}", {}, {})(decoy)
+            ns[attr] = method
+        elif k in on_base:
+            base_ns[attr] = method
+        elif k in on_mixin:
+            mixin_ns[attr] = method
+        else:
+            ns[attr] = method
+    if not layout:
+        return type(f"GenService{idx}", (UpnpServerService,), ns)
+    root = shared_base if (layout.get("shared") and shared_base is not None) else UpnpServerService
+    base = type(f"GenServiceBase{idx}", (root,), base_ns)
+    mixin = type(f"GenServiceMixin{idx}", (), mixin_ns)
+    return type(f"GenService{idx}", (mixin, base), ns)
 
 
 def mk_device_class(w: World, dev: Dict[str, Any], svc_classes: List[Any], path: str = "0"):
@@ -511,7 +556,19 @@ async def run_case(recipe: Dict[str, Any], loopback: bool = False) -> Tuple[List
 
     # -- build the real server (no sockets: AppRunner/TCPSite replaced, SSDP not started)
     try:
-        svc_classes = [mk_service_class(w, i, s) for i, s in enumerate(svcs)]
+        shared_base = mk_shared_base(w) if any((s.get("layout") or {}).get("shared") for s in svcs) else None
+        svc_classes = [mk_service_class(w, i, s, shared_base) for i, s in enumerate(svcs)]
+        for s in svcs:
+            lay = s.get("layout") or {}
+            if lay:
+                tags.add("class:hierarchy")
+                for key in ("base", "mixin", "override"):
+                    if lay.get(key):
+                        tags.add("class:actions-on-" + key)
+                if lay.get("vars_on_base"):
+                    tags.add("class:vars-on-base")
+                if lay.get("shared"):
+                    tags.add("class:shared-base")
         dev_class = mk_device_class(w, defn["dev"], svc_classes)
         with mock.patch.object(srv, "AppRunner", _RunnerMock), mock.patch.object(srv, "TCPSite", _SiteMock):
             server = srv.UpnpServer(dev_class, ("127.0.0.1", 0), http_port=8000)
@@ -909,8 +966,22 @@ def g_defn(rng, small: bool = False) -> Dict[str, Any]:
                             outs[rng.randrange(len(outs))][0] = name
                 acts.append({"name": g_name(rng, "Act", k), "in": ins, "out": outs})
         tname = rng.choice(["Svc", "AVTransport", "X_é", "S-T.x"])
-        svcs.append({"type": f"urn:schemas-upnp-org:service:{tname}{i}:1", "id": f"urn:upnp-org:serviceId:{tname}{i}",
-                     "ctl": f"/ctl/{i}", "evt": f"/evt/{i}", "scpd": f"/scpd/{i}.xml", "vars": vars_, "acts": acts})
+        svc = {"type": f"urn:schemas-upnp-org:service:{tname}{i}:1", "id": f"urn:upnp-org:serviceId:{tname}{i}",
+               "ctl": f"/ctl/{i}", "evt": f"/evt/{i}", "scpd": f"/scpd/{i}.xml", "vars": vars_, "acts": acts}
+        if rng.random() < 0.5:
+            # a small class hierarchy: every action lives on the base class, a mixin or the concrete class; some
+            # inherited ones are overridden in the subclass; the variable table may be inherited too
+            lay: Dict[str, Any] = {"base": [], "mixin": [], "override": [], "body": [], "vars_on_base": rng.random() < 0.5}
+            for k in range(len(acts)):
+                lay[rng.choice(["base", "mixin", "override", "body", "base"])].append(k)
+            lay.pop("body")
+            svc["layout"] = lay
+        svcs.append(svc)
+    if nsvc >= 2 and rng.random() < 0.4:
+        # two (or all) services inherit one action from a common base class
+        for svc in rng.sample(svcs, rng.randrange(2, nsvc + 1)):
+            svc["acts"].append(dict(SHARED_ACTION))
+            svc.setdefault("layout", {"base": [], "mixin": [], "override": []})["shared"] = True
 
     def fields(k: int) -> List[Optional[str]]:
         opt = lambda s: rng.choice([s, None, s])  # noqa: E731
@@ -1352,6 +1423,32 @@ CORPUS.append(
         {"kind": "raw", "svc": 0, "act": "Act", "class": "valid", "soapaction": _SA, "err": 402, "desc": "]]> <x/>",
          "body": env_tree(_S0["type"], "Act", [("A", "5"), ("S", "a")])},
     ]})
+
+
+def _svc_h(i: int, layout: Dict[str, Any], extra_acts=()):
+    s = _svc([{"name": "V", "dtype": "ui2", "min": "0", "max": "9"}, {"name": "T", "dtype": "string"}],
+             [{"name": "OnBase", "in": [["X", "V"]], "out": [["Y", "T"]]}, {"name": "OnMixin", "in": [], "out": [["Y", "V"]]},
+              {"name": "Overridden", "in": [["X", "T"]], "out": []}, {"name": "InBody", "in": [], "out": []}, *extra_acts], i)
+    s["layout"] = layout
+    return s
+
+
+CORPUS.append(
+    # seeded batch 4 (`_init_actions` scanning `vars(type(self))` instead of `dir(self)`): actions inherited from a base
+    # class and a mixin, an inherited action overridden in the subclass, the variable table inherited, two services
+    # sharing one base; the definition is the union the MRO gives
+    {"defn": {"svcs": [_svc_h(0, {"base": [0], "mixin": [1], "override": [2], "vars_on_base": True, "shared": True}, [dict(SHARED_ACTION)]),
+                       _svc_h(1, {"base": [0, 1, 3], "mixin": [], "override": [], "shared": True}, [dict(SHARED_ACTION)])],
+              "dev": _dev([0, 1])},
+     "ops": [{"kind": "call", "svc": 0, "act": "OnBase", "args": {"X": 3}, "ret": {"Y": "b"}},
+             {"kind": "call", "svc": 0, "act": "OnMixin", "args": {}, "ret": {"Y": 9}},
+             {"kind": "call", "svc": 0, "act": "Overridden", "args": {"X": "o"}, "ret": {}},
+             {"kind": "call", "svc": 0, "act": "InBody", "args": {}, "err": 701},
+             {"kind": "call", "svc": 0, "act": "SharedPing", "args": {}, "ret": {}},
+             {"kind": "call", "svc": 1, "act": "SharedPing", "args": {}, "ret": {}},
+             {"kind": "call", "svc": 1, "act": "OnMixin", "args": {}, "ret": {"Y": 0}},
+             {"kind": "raw", "svc": 1, "act": "OnBase", "class": "valid", "soapaction": '"urn:schemas-upnp-org:service:S1:1#OnBase"',
+              "ret": {"Y": "z"}, "body": env_tree("urn:schemas-upnp-org:service:S1:1", "OnBase", [("X", "9")])}]})
 
 
 def signature(case: Case, verdict) -> str:
